@@ -148,7 +148,7 @@ Section Reach.
   Qed.
 
   (* makeSubMap's claim of the written field w (of the destination side when d, else of the source side) *)
-  Lemma claim_ok_submap d r w (each : bool) pr pw n1 n2 :
+  Lemma claim_ok_submap (d : bool) r w (each : bool) (pr pw : bool) n1 n2 :
     (if each then exists e1 e2, (if d then f_ty r else f_ty w) = TSlice e1 /\ (if d then f_ty w else f_ty r) = TSlice e2
                                /\ strip_ptr e1 = ((if d then pr else pw), TNamed PSrc n1)
                                /\ strip_ptr e2 = ((if d then pw else pr), TNamed PDst n2)
